@@ -4,5 +4,5 @@ prop=$1; f=$2; shift 2
 cp /repo/$f /tmp/mut.bak
 sed -i "$@" /repo/$f
 if cmp -s /repo/$f /tmp/mut.bak; then echo "MUTATION DID NOT APPLY"; fi
-/verif/bin/govc -prop $prop 2>&1 | grep -E "VIOLATION|failed obligation|baseline obligation|UNDECIDED|TOOL|^property" | head -12
+/verif/bin/govc -prop $prop 2>&1 | grep -E "load error|VIOLATION|failed obligation|baseline obligation|UNDECIDED|TOOL|^property" | head -12
 cp /tmp/mut.bak /repo/$f
